@@ -1,6 +1,6 @@
 (** C17 — private-hop redaction.  Theorems only. *)
 From Coq Require Import List ZArith Bool.
-From TR Require Import Res.Doc Proofs.DocProofs.
+From TR Require Import Res.Doc Proofs.DocProofs Lib.Shapes Generated.Structure Proofs.ShapeProofs.
 Import ListNotations.
 Open Scope Z_scope.
 
@@ -51,3 +51,18 @@ Example C17_example :
   map redact_hop [mkHopd 1 [10;1;2;3] 5 true [[104]] false; mkHopd 2 [8;8;8;8] 9 true [] true]
   = [mkHopd 1 [] 0 false [] false; mkHopd 2 [8;8;8;8] 9 true [] true].
 Proof. reflexivity. Qed.
+
+(** tie kind A, regenerated on every run by tools/goextract/structure.go: the post-processing calls RunTraceroute makes
+    on the result, in their source order and with their guards, run through an interpreter, are the model's pipeline
+    (enrich if asked, normalize, redact if asked — redaction last) *)
+Theorem C17_pipeline_order_tied : forall fl rv runs, apply_steps fl rv run_pipeline_order runs = Some (pipeline_runs fl rv runs).
+Proof. exact pipeline_order_tied. Qed.
+Print Assumptions C17_pipeline_order_tied.
+
+(** ... and RemovePrivateHops has the shape the model's [redact_run] assumes: two range loops over every run and every
+    hop whose body is the single replacement, conditioned on hop.IPAddress.IsPrivate(), by a hop that keeps only the TTL;
+    a failed multi-query run returns no result *)
+Theorem C17_redaction_shape_tied :
+  run_error_returns_no_result = true /\ redact_visits_every_hop = true /\ redact_condition_is_private_address = true /\ redact_keeps_only_ttl = true.
+Proof. exact redaction_shape_tied. Qed.
+Print Assumptions C17_redaction_shape_tied.
